@@ -66,7 +66,8 @@ class Profile:
 
 def history_of(ops, line_idx, start="NEW"):
     """the NEW-delimited history containing request line `line_idx` (index into ops), as a list of lines.
-    For SAVE/RESTORE trees the history is the root-to-node path."""
+    For SAVE/RESTORE trees the history is the root-to-node path.  Definitions (`DEF name …`) are global: those made in
+    earlier histories that this one refers to (transitively) are put in front."""
     lo = line_idx
     while lo > 0 and ops[lo].split(" ", 1)[0] != start:
         lo -= 1
@@ -83,6 +84,24 @@ def history_of(ops, line_idx, start="NEW"):
             else:
                 path.append(l)
         return path
+    defs = {}
+    for l in ops[:lo]:
+        if l.startswith("DEF "):
+            t = l.split(" ", 2)
+            if len(t) > 1:
+                defs[t[1]] = l
+    if defs:
+        need, order = set(), []
+        todo = list(seg)
+        while todo:
+            l = todo.pop()
+            for name in re.findall(r"@[A-Za-z0-9_]+", l):
+                if name in defs and name not in need and not l.startswith("DEF " + name + " "):
+                    need.add(name)
+                    todo.append(defs[name])
+        order = [defs[n] for n in defs if n in need]   # original definition order
+        if order:
+            return [seg[0]] + order + seg[1:] if seg and seg[0].split(" ", 1)[0] == start else order + seg
     return seg
 
 
@@ -95,12 +114,28 @@ def mon_parse(lines):
     return out
 
 
+def known_from_file(prop):
+    """matcher for open known findings: a monitor whose name (including its cause suffix) is listed for the property"""
+    table = {}
+    for k in core.known_findings().get("open", []):
+        if k.get("property") == prop and k.get("monitor"):
+            table[k["monitor"]] = k
+    def known(name, shrunk, detail):
+        k = table.get(name)
+        if k is None:
+            return None
+        return "%s monitor=%s %s" % (k.get("id", ""), name, k.get("what", ""))
+    return known
+
+
 def check_profile(o, prof, mode, params, label, monitors_relevant=None, max_report=3, nontrivial=None,
                   known=None, keep=lambda l: False):
     """generate, run both sides, diff, evaluate monitors, shrink, report into Outcome `o`.
 
     monitors_relevant: set of monitor names that decide this property (None = all).
     known(monitor, shrunk_ops, detail) -> text or None: matches an open known finding."""
+    if known is None:
+        known = known_from_file(o.prop)
     p = prof.generate(mode, params, tag=label)
     ops = core.read_lines(p["ops"])
     impl = core.read_lines(p["impl"])
@@ -175,3 +210,38 @@ def check_profile(o, prof, mode, params, label, monitors_relevant=None, max_repo
         o.violation("monitor %s fails on the implementation: %s" % (name, detail), obj)
         reported += 1
     return {"ops": len(aops), "diffs": len(diffs), "monitor_hits": len(relevant)}
+
+
+def check_corpus(o, prof, prop, monitors_relevant=None, known=None):
+    """replay the stored histories of a property first: minimised past failures and the witnesses of the open known
+    findings.  A witness whose monitor fires and is listed prints KNOWN-FINDING; anything else is reported."""
+    if known is None:
+        known = known_from_file(prop)
+    d = os.path.join(core.ROOT, "corpus", prop)
+    if not os.path.isdir(d):
+        return
+    for fn in sorted(os.listdir(d)):
+        if not fn.endswith(".ops"):
+            continue
+        lines = [l for l in core.read_lines(os.path.join(d, fn)) if l.strip() and not l.startswith("#")]
+        im, mo, mn = prof.replay(lines, tag="corpus")
+        if im is None:
+            o.violation("corpus history %s cannot be replayed: %s" % (fn, mn), {"kind": "corpus", "file": fn}, no_input=True)
+            continue
+        o.cov["evaluations"] += len(im)
+        o.notes.setdefault("corpus", {})[fn] = {"lines": len(lines), "monitors": mn}
+        diffs = core.first_diffs(prof.answered(lines), im, mo, prof.view, limit=1)
+        if diffs:
+            i, op, a, b = diffs[0]
+            o.violation("corpus history %s: model and implementation disagree at %s" % (fn, op),
+                        {"kind": "correspondence", "profile": "corpus", "ops": lines, "implementation": im, "model": mo,
+                         "first_diff": {"request": op, "implementation": a, "model": b}}, no_input=True)
+        for (ln, name, detail) in mon_parse(mn or []):
+            if monitors_relevant is not None and name not in monitors_relevant:
+                continue
+            text = known(name, lines, detail)
+            if text:
+                o.known_finding(text)
+            else:
+                o.violation("corpus history %s: monitor %s fails: %s" % (fn, name, detail),
+                            {"kind": "monitor", "profile": "corpus", "monitor": name, "detail": detail, "ops": lines, "implementation": im, "model": mo})
